@@ -91,7 +91,7 @@ def check_spec(spec: NetSpec, label, st: Stats, plan):
             compare(spec, nxt, ref, st, "numpy", case, problems)
         # ---- read-mutate-read construction: every lookup is read after every construction call, so
         # that a lookup left stale by a later call would feed the step with an outdated network
-        if full:
+        if full and not plan.get("light"):
             for vlabel, val in valgen.vectors(spec, 0):
                 st.inc("executions")
                 case = {"spec": spec.describe(), "config": label, "P": P, "val": {f"{k[0]}.{k[1]}": v for k, v in val.items()},
@@ -107,7 +107,7 @@ def check_spec(spec: NetSpec, label, st: Stats, plan):
                     break
                 compare(spec, nxt, refmodel.step(spec, val, P), st, "numpy (lookups read during construction)", case, problems)
         # ---- element-by-element stepping through the per-element API (links are stepped BEFORE the origins), twice
-        if full:
+        if full and not plan.get("light"):
             from ..harness import np_manual_steps
             for vlabel, val in valgen.vectors(spec, 0):
                 st.inc("executions", 2)
@@ -122,7 +122,7 @@ def check_spec(spec: NetSpec, label, st: Stats, plan):
                     break
                 compare(spec, nxt, refmodel.step(spec, val, P), st, "numpy (element-by-element stepping, second step)", case, problems)
         # ---- the same network reached by editing a different, already stepped network in place
-        if full:
+        if full and not plan.get("light"):
             for (vlabel, val), emode in zip(list(valgen.vectors(spec, 0)) * 2, ("links", "attachments", "replace")):
                 st.inc("executions", 2)
                 case = {"spec": spec.describe(), "config": label, "P": P, "val": {f"{k[0]}.{k[1]}": v for k, v in val.items()},
@@ -135,6 +135,47 @@ def check_spec(spec: NetSpec, label, st: Stats, plan):
                                      f"step): {exc_text(e)}", case))
                     break
                 compare(spec, nxt, refmodel.step(spec, val, P), st, "numpy (network edited in place after a step)", case, problems)
+        # ---- the caller supplies only PART of the initial conditions; the engine creates the rest (a constant fill)
+        if full and plan.get("partial"):
+            from ..harness import filled, supply_modes
+            FILL = 27.5
+            for mlabel, supply in supply_modes(spec):
+                for vlabel, val in valgen.vectors(spec, 0):
+                    st.inc("executions", 2)
+                    st.inc("partial_condition_steps")
+                    eff = filled(spec, val, supply, FILL)
+                    case = {"spec": spec.describe(), "config": label, "P": P, "val": {f"{k[0]}.{k[1]}": v for k, v in val.items()},
+                            "engine": "numpy", "supplied": sorted(f"{k}.{v}" for k, v in supply), "fill": FILL}
+                    try:
+                        # the same objects are first stepped from the OTHER base vector with everything supplied: what the
+                        # engine creates now must replace whatever the elements held before
+                        eng_ = env.numpy_engine(np.float64(FILL))
+                        b_ = build(spec)
+                        np_step(spec, valgen.base_vector(spec, 1 if vlabel == "base0" else 0), P, built=b_, engine=eng_)
+                        nxt, built, raw = np_step(spec, val, P, supply=supply, engine=eng_, built=b_)
+                    except Exception as e:  # noqa: BLE001
+                        problems.append((f"{PROP}/exception/{exc_site(e)}/{type(e).__name__}", f"numpy (initial conditions "
+                                         f"{mlabel}): {exc_text(e)}", case))
+                        break
+                    compare(spec, nxt, refmodel.step(spec, eff, P), st, f"numpy (initial conditions {mlabel}, rest filled with {FILL})",
+                            case, problems)
+        # ---- every element an instance of a user-defined subclass of its library class (NumPy and compiled SX)
+        if full and plan.get("partial"):
+            for vlabel, val in valgen.vectors(spec, 0):
+                st.inc("executions", 2)
+                case = {"spec": spec.describe(), "config": label, "P": P, "val": {f"{k[0]}.{k[1]}": v for k, v in val.items()},
+                        "engine": "numpy", "subclass": True}
+                try:
+                    nxt = np_step(spec, val, P, built=build(spec, subclass=True))[0]
+                    F_, b_, _ = cs_compile(spec, "SX", P, compact=0, built=build(spec, subclass=True))
+                    nxt2 = Compiled(F_, b_).eval_many([val])[0]
+                except Exception as e:  # noqa: BLE001
+                    problems.append((f"{PROP}/exception/{exc_site(e)}/{type(e).__name__}", f"elements of user-defined subclasses: "
+                                     f"{exc_text(e)}", case))
+                    break
+                ref_ = refmodel.step(spec, val, P)
+                compare(spec, nxt, ref_, st, "numpy (elements of user-defined subclasses)", case, problems)
+                compare(spec, nxt2, ref_, st, "SX (elements of user-defined subclasses)", dict(case, engine="SX"), problems)
         # ---- compiled CasADi function -------------------------------------------------
         for sym in plan["cs_sym"]:
             st.inc("transitions", 2)
@@ -208,7 +249,9 @@ def plans(tier, seed):
     pal = seed % 3
     if tier == "quick":
         jobs = [({"np_d": 1, "cs_d": 1, "psets": [0, 1], "cs_sym": ["SX"]},
-                 [(lab, s) for _, lab, s in all_specs(3, 3, 1, pal)] + [(f"harness:{k}", s) for k, s in harness_specs(pal).items()])]
+                 [(lab, s) for _, lab, s in all_specs(3, 3, 1, pal)] + [(f"harness:{k}", s) for k, s in harness_specs(pal).items()]),
+                ({"np_d": -1, "cs_d": -1, "psets": [0], "cs_sym": [], "partial": True, "light": True},
+                 [(lab, s) for _, lab, s in all_specs(3, 3, 0, pal)] + [(f"harness:{k}", s) for k, s in harness_specs(pal).items()])]
         bounds = {"shapes": "(n,m)<=(3,3) + the harness list (incl. 12-segment links, ramps at merge nodes)", "config_deviation": 1, "numpy_value_deviation": 1, "casadi_value_deviation": 1,
                   "palette": pal, "param_sets": [0, 1]}
     else:
@@ -225,6 +268,7 @@ def plans(tier, seed):
             ({"np_d": 0, "cs_d": 1, "psets": [1], "cs_sym": ["SX"]}, b2),
             ({"np_d": 0, "cs_d": 2, "psets": [0, 1], "cs_sym": ["SX", "MX"]}, c),
             ({"np_d": 1, "cs_d": 2, "psets": [0, 1], "cs_sym": ["SX"], "products": 7}, h),
+            ({"np_d": -1, "cs_d": -1, "psets": [0], "cs_sym": [], "partial": True, "light": True}, a + h),
         ]
         bounds = {"shapes": "(3,4) c<=1 with 4 parameter sets; (3,3) c<=2; 4-node shapes (4,4) c<=1 and (4,5) base+uniform; "
                             "(3,3) base+uniform with pair excursions on SX and MX (second palette); harness list with local "
@@ -287,7 +331,21 @@ def replay(case):
     st = Stats()
     problems = []
     ref = refmodel.step(spec, val, P)
-    if case.get("manual"):
+    if case.get("supplied") is not None:
+        from ..harness import filled
+        supply = frozenset(tuple(x.split(".")) for x in case["supplied"])
+        eng_ = env.numpy_engine(np.float64(case["fill"]))
+        b_ = build(spec)
+        np_step(spec, valgen.base_vector(spec, 1), P, built=b_, engine=eng_)
+        nxt = np_step(spec, val, P, supply=supply, engine=eng_, built=b_)[0]
+        ref = refmodel.step(spec, filled(spec, val, supply, case["fill"]), P)
+    elif case.get("subclass"):
+        if case.get("engine") == "SX":
+            F_, b_, _ = cs_compile(spec, "SX", P, compact=0, built=build(spec, subclass=True))
+            nxt = Compiled(F_, b_).eval_many([val])[0]
+        else:
+            nxt = np_step(spec, val, P, built=build(spec, subclass=True))[0]
+    elif case.get("manual"):
         from ..harness import np_manual_steps
         other = valgen.base_vector(spec, 1)
         nxt, _ = np_manual_steps(spec, [other, val], P)
